@@ -180,6 +180,10 @@ func c10Build(feats []string) map[string]any {
 			body["content"].(map[string]any)["application/x-www-form-urlencoded"] = map[string]any{}
 		case "multipart_body_no_schema":
 			body["content"].(map[string]any)["multipart/form-data"] = map[string]any{}
+		case "type_empty_list":
+			// "type" as an empty list: no value is of any listed type
+			props["name"] = map[string]any{"type": []any{}}
+			hParam["schema"] = map[string]any{"type": []any{}}
 		case "recursive_schema_default":
 			// a recursive schema whose recursive property has a default: every injected default asks for another one
 			comps["schemas"].(map[string]any)["Node"] = map[string]any{"type": "object", "properties": map[string]any{
